@@ -7,6 +7,9 @@ V = os.path.dirname(os.path.dirname(os.path.abspath(__file__)))
 TECH = "TLA+ specification checked with TLC; conformance by replaying TLC-enumerated scenarios into the library and validating the recorded traces against the specification with TLC (trace spec)"
 
 CHECKS = {
+ "C15": ("4 C15", "AidlSymbols.Walk / FilterPaths / FindPath / WalkTypesPaths state the visiting order (array element before the array, any depth) and the filter / find semantics; WalkCoversTree (every node exactly once) is evaluated on every judged tree; TLC enumerates family 'sym'; the harness identifies every delivered reference by pointer identity and the trace spec compares sequences for the three filter levels and the predicates k-th / class / name."),
+ "C16": ("4 C16", "AidlSymbols.LookupPath (first symbol in traversal order whose reported name range contains the position, inclusive at both ends) is compared with find_symbol_at_line_col at EVERY (line, column) of every rendered document of family 'sym' and of random projects, for the three filter levels."),
+ "C17": ("4 C17", "AidlSymbols.QNameOf / PlainNameOf; family 'sym' covers every item kind x package depth 1-3 with a second file referencing the item in several positions; get_name / get_qualified_name of every walked symbol and Aidl::get_key are compared by the trace spec."),
  "C01": ("4 C01", "AidlStore.AddContent is enabled for every content and Validate returns one result per id (AidlProject.KeysExact, model-checked on MC_Store/MC_Hist); the trace spec has no action for a call that panics, aborts or hangs, so every such event is reported; seeded soups (characters, tokens, mutations, nesting to depth 64, 64 KiB documents, 1-6 files) and exhaustive single injections of a hazard alphabet at every token/comment/string boundary of frame documents are replayed."),
  "C11": ("4 C11", "The trace spec keeps memo[store] -> digest of the first validation (trees + diagnostics in order) and demands equality for every later validation of an equal (id, content) map: repeated calls, new instances, reversed / shuffled insertion orders, fresh threads and 2-3 separate OS processes; ascending (line, column) order is checked on every observation. TLC enumerates family 'order' (several diagnostics on one line, ambiguous imports, duplicate keys)."),
  "C12": ("4 C12", "AidlStore/AidlProject is the state machine; TLC enumerates MC_Hist (all histories of the stated length over 3 ids x 4 contents, from the empty parser and from every one of the 125 abstract states through two different entry histories) checking KeysExact / PureFunction / OnlyNamedSlotChanges, and attaches the abstract store after every step; the replay compares the live parser with a fresh parser loaded from that abstract store after every step (trace spec memo), add_file outcomes included."),
